@@ -410,8 +410,16 @@ def _prune_live(interp, s0):
 
 def _run_instance(c, tree, mod, label, recv, rep, timeout_ms, lookup):
     ctx = Ctx()
+    qual = c.qual
+    if c.resolve_method is not None:
+        # the unit is what `<class>.<method>` resolves to on the CURRENT tree (an override added in a subclass is the code that runs)
+        cls = c.resolve_method[0](mod)
+        owner = next((k for k in cls.__mro__ if c.resolve_method[1] in vars(k)), None)
+        if owner is None or owner.__module__ != mod.__name__:
+            raise Unsupported(f"{cls.__name__}.{c.resolve_method[1]} resolves outside {c.file}")
+        qual = f"{owner.__qualname__}.{c.resolve_method[1]}"
     try:
-        target_node = extract.find(tree, c.qual)
+        target_node = extract.find(tree, qual)
     except LookupError as e:
         raise Unsupported(f"the contract's target no longer exists: {e}")
     _, sha, l0, l1 = extract.segment(c.file, target_node)
